@@ -18,6 +18,7 @@ pub mod c16;
 pub mod c17;
 pub mod c18;
 pub mod c19;
+pub mod paths;
 
 pub fn run(ctx: &Ctx) -> Report {
   match ctx.prop.as_str() {
